@@ -231,4 +231,88 @@ theorem authVerification_follows_forkChoice (s : State) (order src tgt : Nat) (s
     (s.authVerification order src tgt sigOk).1.best = (s.authVerification order src tgt sigOk).1.bestChain :=
   authVerification_sync s order src tgt sigOk hsync hok
 
+/-! ### The id-consistency hypothesis is needed (a statement that is FALSE of the model)
+
+The step theorems take the block from a universe in which one id names one block.  Without that
+— asking only that the declared height is the stored parent's + 1 — the statement is false of
+the model: block ids are arbitrary numbers there, and a "block" that reuses the id of genesis
+with another parent overwrites the stored genesis header.  In the implementation ids are
+SHA3-256 hashes of the header, so this needs a hash collision; it is a limit of the model's
+vocabulary, not a defect of the node. -/
+
+def wf_processBlock_without_universe : Prop :=
+  ∀ (U : Univ) (s : State) (b : Header), WF U s →
+    (∀ p, s.header b.parent = some p → b.height = p.height + 1) → WF U (s.processBlock b).1
+
+def exCfg : Config := { epoch := 2, nVal := 1, me := none }
+def exG : Header := { id := 0, parent := 99, height := 0, slot := 0, rank := 0, sup := [] }
+def exB (id parent height : Nat) : Header :=
+  { id := id, parent := parent, height := height, slot := 0, rank := id, sup := [] }
+
+theorem wf_processBlock_without_universe_refuted : ¬ wf_processBlock_without_universe := by
+  intro hnaive
+  -- genesis, then block 1 on top of it …
+  have hc : Consistent exG [exB 1 0 1] := by decide +kernel
+  have w0 : WF (Univ.ofBlocks exG [exB 1 0 1] hc) (State.init exCfg exG) :=
+    init_wf _ exCfg exG rfl rfl ⟨exG, by simp, rfl, rfl, rfl⟩
+  have w1 := processBlock_wf w0 (exB 1 0 1) ⟨exB 1 0 1, by simp, rfl, rfl, rfl⟩
+  -- … then a "block" with the id of genesis, parent 1, height 2
+  have hh : ∀ p, ((State.init exCfg exG).processBlock (exB 1 0 1)).1.header (exB 0 1 2).parent = some p →
+      (exB 0 1 2).height = p.height + 1 := by
+    intro p hp
+    have h2 : (((State.init exCfg exG).processBlock (exB 1 0 1)).1.header (exB 0 1 2).parent).map (fun h => h.height) = some 1 := by
+      decide +kernel
+    rw [hp] at h2
+    simp only [Option.map_some, Option.some.injEq] at h2
+    show 2 = p.height + 1
+    omega
+  have w2 := hnaive _ _ (exB 0 1 2) w1 hh
+  -- now no stored header has height 0
+  obtain ⟨gp, hg⟩ := w2.store.genesis
+  obtain ⟨hd, hl, _, h0, _⟩ := skelOf_some hg
+  have hall : ∀ hd ∈ ((((State.init exCfg exG).processBlock (exB 1 0 1)).1).processBlock (exB 0 1 2)).1.headers,
+      hd.height ≠ 0 := by decide +kernel
+  exact hall hd (lookup_mem hl) h0
+
+/-! ### non-vacuity of the hypotheses (tests on literal histories, evaluated by the kernel)
+
+Fork 0 ← 1 ← 2 ← 4 and 1 ← 3, epoch length 2, one validator.  Blocks arrive out of order
+(4 and 2 wait as orphans for 1), the branch through 2 and 4 becomes best; then a vote justifies
+checkpoint 3 and the node reorganises to the SHORTER branch 0 ← 1 ← 3: the index keeps a stale
+entry for height 3, and `inMain` must not report block 4 (the fixed defect F8). -/
+
+def exEvents : List Event :=
+  [.define (exB 1 0 1), .define (exB 2 1 2), .define (exB 3 1 2), .define (exB 4 2 3),
+   .deliver (exB 4 2 3), .deliver (exB 2 1 2), .deliver (exB 1 0 1), .deliver (exB 3 1 2),
+   .vote 0 0 3 true]
+
+/-- hypotheses of `wf_reachable` / `reachable_index_and_inMain` -/
+example : exG.height = 0 ∧ Consistent exG (delivered exEvents) := ⟨rfl, by decide +kernel⟩
+/-- … also for a history with a restart and a redelivery after it -/
+example : Consistent exG (delivered (exEvents ++ [.restart, .deliver (exB 4 2 3)])) := by decide +kernel
+/-- hypotheses of `wf_processBlock`, `wf_authVerification`, `index_consistent`, `inMain_iff`,
+    `tryReorganize_succeeds`: a non-trivial state with the invariant -/
+example : ∃ U, WF U (run (State.init exCfg exG) exEvents) :=
+  ⟨_, wf_reachable exCfg exG exEvents rfl (by decide +kernel)⟩
+/-- before the vote: best is the long branch -/
+example : (run (State.init exCfg exG) (exEvents.take 8)).best = 4 := by decide +kernel
+/-- after the vote: the shorter branch with the justified checkpoint wins, height 3 is stale -/
+example : (run (State.init exCfg exG) exEvents).best = 3 ∧
+    (run (State.init exCfg exG) exEvents).index = [(0, 0), (1, 1), (2, 3), (3, 4)] := by decide +kernel
+example : [exB 1 0 1, exB 2 1 2, exB 3 1 2, exB 4 2 3].map (inMain (run (State.init exCfg exG) exEvents)) =
+    [true, false, true, false] := by decide +kernel
+/-- hypotheses of `processBlock_follows_forkChoice` / `authVerification_follows_forkChoice` -/
+example : (run (State.init exCfg exG) (exEvents.take 8)).best = (run (State.init exCfg exG) (exEvents.take 8)).bestChain ∧
+    ((run (State.init exCfg exG) (exEvents.take 8)).authVerification 0 0 3 true).2 = .ok := by decide +kernel
+/-- hypotheses of the `calcReorg_*` theorems: a stored fork; attach [3], detach [4, 2] -/
+example : (match (run (State.init exCfg exG) (exEvents.take 8)).header 3, (run (State.init exCfg exG) (exEvents.take 8)).header 4 with
+    | some nb, some ob =>
+      ((run (State.init exCfg exG) (exEvents.take 8)).calcReorg 20 nb ob [] []).map
+        (fun r => (r.1.map (fun h => h.id), r.2.map (fun h => h.id)))
+    | _, _ => none) = some ([3], [4, 2]) := by decide +kernel
+example : StoreWF (skel (run (State.init exCfg exG) (exEvents.take 8))) 0 :=
+  (wf_reachable exCfg exG (exEvents.take 8) rfl (by decide +kernel)).store
+/-- hypothesis of `wf_restart` -/
+example : ((State.init exCfg exG).restart).isSome = true := by decide +kernel
+
 end BytomModel.Props.C11
